@@ -120,7 +120,7 @@ class RemoteStub:
                 t, inputs = args[0], args[1]
                 m = args[2] if len(args) > 2 else None
                 ctx.steptime[self.sid] = t
-                ctx.record({"k": "SB", "s": self.sid, "t": t, "m": m if m is not None else -1, "inp": _inp_list(inputs)})
+                ctx.record({"k": "SB", "s": self.sid, "t": drive._enc_time(t), "m": drive._enc_time(m) if m is not None else -1, "inp": _inp_list(inputs)})
             else:
                 ctx.record({"k": "DB", "s": self.sid})
             fut = asyncio.get_event_loop().create_future()
